@@ -83,11 +83,13 @@ Definition pstate_eqb (a b : pstate) : bool :=
    x2p, p2x    Some b: at least one record was written in that direction after the resume and
                b = "everything written was delivered, in order"
    start       (MinVersion, MaxVersion) of the handshake configuration the Conn was resumed with,
-               "HandshakeContext returned nil at once" (the Conn started in the finished state),
+               what HandshakeContext of the resumed Conn did: 0 = returned nil at once (finished
+               state), 1 = returned an error at once and nothing was written, 2 = anything else
+               (it wrote records or kept waiting: a new handshake),
                "ConnectionState() was available between Resume and the first Handshake/Read/Write" *)
 Definition main_case :=
   (istate * pstate * pstate * istate * istate * list (N * N) * list (N * N) * option bool * option bool *
-   (N * N * bool * bool))%type.
+   (N * N * N * bool))%type.
 
 Definition flow_ok (pred : bool) (obs : option bool) : bool :=
   match obs with None => true | Some b => Bool.eqb pred b end.
@@ -132,9 +134,14 @@ Definition main_traffic_ok
 
 Definition main_ok (c : main_case) : bool :=
   let '(before, exported, decoded, after, peer, pre, post, x2p, p2x, start) := c in
-  let '(vmin, vmax, started, early_ok) := start in
-  (* whatever versions the options allow, the resume state is honoured *)
-  Bool.eqb started (hs_start_eqb (handshake_start vmin vmax true) StartFinished) &&
+  let '(vmin, vmax, start_obs, early_ok) := start in
+  let started := start_obs =? 0 in
+  (* whatever versions the options allow, the resume state is honoured (or refused: 1.3-only options) *)
+  match handshake_start vmin vmax true with
+  | StartFinished => start_obs =? 0
+  | StartRefused => start_obs =? 1
+  | _ => start_obs =? 2
+  end &&
   (* as coded the state is installed lazily: nothing is reported before the first I/O *)
   Bool.eqb early_ok (match gen_state (resumed_conn_before_start after) with Ok _ => true | _ => false end) &&
   (negb started || main_traffic_ok (before, exported, decoded, after, peer, pre, post, x2p, p2x)).
@@ -174,8 +181,12 @@ Definition corrupt_ok (c : corrupt_case) : bool :=
         resume_ok && Bool.eqb x2p (delivers x t) &&
         (* (a state that would write in epoch 0 no longer gets this far: gen_internal refuses it) *)
         Bool.eqb p2x (delivers t x) &&
-        (* the numbers it uses: from the decoded number on, nothing beyond 2^48 - 1, no wrap *)
-        pairs_eqb (emitted (i_local_seq x) (repeat (i_local_epoch x) (N.to_nat k))) post
+        (* the numbers it uses: from the decoded number on, nothing beyond 2^48 - 1, no wrap (a DTLS
+           1.3 suite id protects nothing on a 1.2 connection: the number is spent, no record leaves) *)
+        pairs_eqb (match key_inputs x with
+                   | Some _ => emitted (i_local_seq x) (repeat (i_local_epoch x) (N.to_nat k))
+                   | None => []
+                   end) post
     | None, Some _ => negb resume_ok
     | _, None => false
     end
